@@ -422,8 +422,9 @@ class InternationalizationExtension(Extension):
         else:
             next(parser.stream)
 
-        # register free names as simple name expressions
-        for name in referenced:
+        # register free names as simple name expressions, in a stable
+        # order so that the generated code does not depend on the hash seed
+        for name in sorted(referenced):
             if name not in variables:
                 variables[name] = nodes.Name(name, "load")
 
